@@ -118,6 +118,8 @@ def cond(test, facts, env):
         base = env.get("halo_depth")
         if base and base[0] == "L":
             return facts["lit"] + base[1] > 0
+    if isinstance(test, ast.Constant):
+        return bool(test.value)
     # generic boolean structure over the same atoms
     if isinstance(test, ast.BoolOp):
         vals = [cond(v, facts, env) for v in test.values]
